@@ -15,7 +15,8 @@ KEY_MID = None      # (both dialer back-off findings were repaired in /repo: 210
 KEY_OVF = None
 KEY_WLEAK = None     # waitpipes leak on endpoint close: repaired in /repo 6fda216 (tcp.c, ipc.c) -- fires unkeyed if it returns
 KEY_RACE = None      # tear-down overtaking start-up (use-after-free): repaired in /repo 91744d5
-KEY_DLEAK = "tcp-dial-leak-on-dialer-close"      # nni_tcp_dial's connection object leaked when the dialer closes mid-connect
+KEY_DLEAK = None     # connection leaked when a tcp dialer closes as its connect completes: cause (late abort overwriting the
+                     # result) repaired in /repo e9a11c8
 
 
 def san_key(errtxt, finished):
@@ -304,6 +305,27 @@ def oracle(case, out):
     return None
 
 
+def sched_dependent(case, mo, io):
+    """PAIR accepts one pipe: when one command makes a pipe go away AND starts another one (several connections were
+    waiting for the accept to be re-armed), whether the second is accepted or refused as busy depends on whether the
+    reaper (protocol pipe_close of the first) or the accept callback (protocol pipe_start of the second) runs first.
+    Both orders are legal; the model driver fixes one.  Such lines are not compared."""
+    if not case or case[0].split()[-1] not in ("pair0", "pair1"):
+        return False
+    a, b = parse(mo), parse(io)
+    if a is None or b is None:
+        return False
+    pa = set(e.split(":")[0] for e in a["ev"])
+    pb = set(e.split(":")[0] for e in b["ev"])
+    if len(pa) >= 2 and pa == pb:
+        return True
+    # ... or, with no callback registered, one pipe that was used by the protocol in one run and refused in the other
+    if a["ev"] == b["ev"] and a["d"] == b["d"] and a["l"] == b["l"] and a["rv"] == b["rv"] and set(a["pipes"]) == set(b["pipes"]):
+        diff = [p for p in a["pipes"] if a["pipes"][p] != b["pipes"][p]]
+        return len(diff) == 1 and sum(1 for p in a["pipes"] if a["pipes"][p][0] == "g") >= 1
+    return False
+
+
 def rt_early(mo, io):
     """the implementation is merely ahead of the model in REAL time: a timer the model still shows armed has fired"""
     a, b = parse(mo), parse(io)
@@ -389,7 +411,7 @@ def scen_oracle(kind, out):
                     return "nng_socket_close(%s) returned; pipe %s had ADD_POST and no REM_POST" % (s, pid)
         elif t[0] == "L":
             f = dict(x.split("=") for x in t[2:])
-            if f["open"] == "1" and f["target_open"] == "1" and f["pipe"] != "1":
+            if f["open"] == "1" and f["target_open"] == "1" and f["pipe"] != "1" and int(f.get("stable", "0")) < 3:
                 return "dialer %s is open, its listener is open, and after %s ms (virtual clock advanced throughout) it has no pipe" % (t[1], f["waited"])
         elif t[0] == "R":
             f = dict(x.split("=") for x in t[2:])
@@ -407,10 +429,12 @@ def scen_oracle(kind, out):
     return None
 
 
-def run_scen(binp, args, timeout=120):
+def run_scen(binp, args, timeout=120, delay_seed=0):
     try:
+        env = dict(os.environ, **ASAN_ENV)
+        env["C14_DELAY_SEED"] = str(delay_seed)       # hook H5: seeded sleeps at the create/close delay points
         p = subprocess.run([binp] + [str(a) for a in args], capture_output=True, text=True, timeout=timeout,
-                           env=dict(os.environ, **ASAN_ENV), cwd="/tmp")
+                           env=env, cwd="/tmp")
         return p.returncode, p.stdout.splitlines(), p.stderr
     except subprocess.TimeoutExpired as ex:
         out = ex.stdout.decode() if isinstance(ex.stdout, bytes) else (ex.stdout or "")
@@ -463,14 +487,15 @@ def run(tier, seed, replay=None):
     flags = o[0] if o else "?"
     fixmax, wide = "fixmax=true" in flags, "wide=true" in flags
     rng = random.Random(seed)
+    t_sections = {"prelude_s": round(time.time() - rep.t0, 1)}
 
     # ---- 1. scripted cases: implementation vs model vs oracle
-    n = 140 if tier == "quick" else 2500
+    n = 450 if tier == "quick" else 6000
     if replay:
         cases = [[l.strip() for l in open(replay) if l.strip() and not l.startswith("#")]]
     else:
         cases = load_corpus("C14") + [gen_script(rng, tier, fixmax) for _ in range(n)]
-    diverged, rt_skips, lines_cmp = [], 0, 0
+    diverged, rt_skips, sched_skips, lines_cmp = [], 0, 0, 0
     hist = {}
     for b0 in range(0, len(cases), 50):
         batch = cases[b0:b0 + 50]
@@ -499,6 +524,8 @@ def run(tier, seed, replay=None):
                 if io != mo:
                     if rt_early(mo, iout[ci][k] if k < len(iout[ci]) else None):
                         rt_skips += 1
+                    elif sched_dependent(case, mo, iout[ci][k] if k < len(iout[ci]) else None):
+                        sched_skips += 1
                     else:
                         diverged.append((b0 + ci, k, line, io, mo))
                     break
@@ -507,6 +534,7 @@ def run(tier, seed, replay=None):
         p = rep.replay_file("diverge_%d.case" % ci, "# model and implementation differ at op %d: %s\n# impl : %s\n# model: %s\n" % (k, line, io, mo) + "\n".join(cases[ci]) + "\n")
         rep.violation(p, "correspondence C14 models <-> socket.c/pipe.c/dialer.c/listener.c broken on %d scripted cases (no input violating the property found); first: op %r impl=%r model=%r" % (len(diverged), line, io, mo), nofail=True)
 
+    t_sections["scripted_s"] = round(time.time() - rep.t0 - t_sections["prelude_s"], 1)
     # ---- 2. the two dialer findings, directed (reported under their keys while the tree has them)
     if not replay:
         iout, crash = run_cases(impl, [case_midchange()], timeout=120)
@@ -537,22 +565,24 @@ def run(tier, seed, replay=None):
     # ---- 3. real transports, raw peers
     scen = []
     if not replay:
-        nseed = 5 if tier == "quick" else 40
+        nseed = 10 if tier == "quick" else 60
         for tr in ("tcp", "ipc", "inproc"):
             for i in range(nseed):
                 scen.append(("real", [tr, seed * 1000 + i, 160 if tier == "quick" else 400]))
         cfgs = [(0, 0), (0, 400), (60, 0), (100, 1000), (300, 100), (1000, 0), (25, 25), (1, 3), (2000, 500)]
         for tr in ("tcp", "ipc"):
-            for j, (mn, mx) in enumerate(cfgs if tier != "quick" else cfgs[:7]):
-                for i in range(1 if tier == "quick" else 6):
+            for j, (mn, mx) in enumerate(cfgs):
+                for i in range(2 if tier == "quick" else 8):
                     scen.append(("redial", [tr, seed * 1000 + 100 * j + i, mn, mx, 14 if tier == "quick" else 40]))
-            for i in range(2 if tier == "quick" else 12):
+            for i in range(3 if tier == "quick" else 16):
                 scen.append(("hostile", [tr, seed * 1000 + i, 14 if tier == "quick" else 40]))
     sc_hist = {"real": 0, "redial": 0, "hostile": 0}
     sc_events = 0
     sc_rounds = 0
     with concurrent.futures.ThreadPoolExecutor(max_workers=5) as ex:
-        futs = {ex.submit(run_scen, impl, [k] + a, 300): (k, a) for k, a in scen}
+        # thorough: every second run with delay injection
+        futs = {ex.submit(run_scen, impl, [k] + a, 300, (a[1] if (tier != "quick" and idx % 2) else 0)): (k, a)
+                for idx, (k, a) in enumerate(scen)}
         for f in concurrent.futures.as_completed(futs):
             k, a = futs[f]
             rc, out, errtxt = f.result()
@@ -564,13 +594,15 @@ def run(tier, seed, replay=None):
                 p = rep.replay_file(name, "# wb_pipeev %s %s (rc=%s)\n" % (k, " ".join(map(str, a)), rc) + "\n".join(out[-200:]) + "\n" + errtxt[:6000] + "\n...\n" + errtxt[-1500:])
                 key = san_key(errtxt, bool(out) and out[-1].endswith("-done"))
                 rep.violation(p, "scenario %s %s crashed / sanitizer report / hung (rc=%s): %s" % (k, a, rc, san_summary(errtxt) or errtxt[-200:]), key=key)
-                wleak = key is not None and key == KEY_DLEAK      # the log is complete: still evaluate it
+                wleak = False
                 if not wleak:
                     continue
             bad = scen_oracle(k, out)
             if bad:
                 p = rep.replay_file(name, "# wb_pipeev %s %s\n# %s\n" % (k, " ".join(map(str, a)), bad) + "\n".join(out) + "\n")
                 rep.violation(p, "C14 (%s %s): %s" % (k, a[0], bad))
+    t_sections["scenarios_s"] = round(time.time() - rep.t0 - t_sections["prelude_s"] - t_sections["scripted_s"], 1)
+    rep.cov["wall_sections"] = t_sections
     if shape_bad and not rep.violations:
         p = rep.replay_file("shape_changed.txt", "the source no longer has the shape the C14 models were written from:\n" + "\n".join(l for l in mine if any(s in l for s in shape_bad)))
         rep.violation(p, "C14: code shape changed (%s): the models no longer correspond to the source; no input violating the property found" % ", ".join(shape_bad), nofail=True)
@@ -579,7 +611,7 @@ def run(tier, seed, replay=None):
     rep.cov.update({
         "distinct_nontrivial": len(set(hash(tuple(c)) for c in cases)),
         "scripted_cases": len(cases), "scripted_lines_compared": lines_cmp, "scripted_divergences": len(diverged),
-        "real_time_skips": rt_skips, "op_histogram": hist, "model_flags": flags,
+        "real_time_skips": rt_skips, "schedule_dependent_skips": sched_skips, "op_histogram": hist, "model_flags": flags,
         "scenarios": sc_hist, "scenario_pipe_events": sc_events, "scenario_rounds": sc_rounds,
         "rule": "scripted: random scripts over bus0/pair0/pair1 sockets with 0-2 deterministic listeners and 0-2 deterministic dialers (harness/wb_pipeev.c: every accept/connect completion, result code, peer loss, pipe/endpoint/socket close, callback that closes its pipe, notify mask, reconnect option, clock advance is a command), implementation vs extracted models line by line + oracle (order/at-most-once, REM_POST by close, reject-in-ADD_PRE carries no I/O, one pipe per dialer, delay left < larger reconnect time, timer armed after loss/failed dial, accept re-armed or cooling down); real: 3 bus sockets, 3-6 listeners, 4-10 dialers over tcp/ipc/inproc, random pipe closes, rejections in ADD_PRE/ADD_POST, endpoint closes, sends, clock advances, sockets closed in random order, oracle on the callback log; redial: raw TCP/UNIX listener that resets / garbles / mis-negotiates / accepts-then-drops, virtual clock advanced by the larger reconnect time per round; hostile: raw client (resets before accept, garbage and short handshakes, foreign protocol, silent hold until the negotiation timeout, bursts) with a control client that must connect and be seen by the listener each time",
         "samples": [cases[0][:16]] if cases else [],
